@@ -3,9 +3,10 @@ import Driver.LockFam
 import Driver.Barrier
 import Driver.Deferred
 import Driver.TripWire
+import Driver.SOH
 open Driver
 
-def comps : List Comp := [LatchD.comp, LockFamD.comp, BarrierD.comp, DeferredD.comp, TripWireD.comp]
+def comps : List Comp := [LatchD.comp, LockFamD.comp, BarrierD.comp, DeferredD.comp, TripWireD.comp, SOHD.comp, SOHD.compNoTap]
 
 def main (args : List String) : IO UInt32 := do
   match args with
